@@ -56,8 +56,10 @@ void ezc3d::ParametersNS::GroupNS::Group::write(std::fstream &f, int groupIdx, s
     f.write(reinterpret_cast<const char*>(&nCharToNext), 2*ezc3d::DATA_TYPE::BYTE);
     f.seekg(actualPos);
 
+    // Only POINT:DATA_START is the block number the writer fills in; a DATA_START of another group is an ordinary parameter
+    bool isPointGroup(!ezc3d::toUpper(name()).compare("POINT"));
     for (size_t i=0; i < nbParameters(); ++i)
-        parameter(i).write(f, -groupIdx, dataStartPosition);
+        parameter(i).write(f, -groupIdx, dataStartPosition, isPointGroup);
 
 }
 
